@@ -31,7 +31,10 @@ def mk(src, cls, tag=None, **fields):
             v_.owner = EXT; v_.tag = "%s.%s" % (cls, name)
             vals[name] = v_
         else: raise Unsupported("field layout of %s changed: source has %s, builder has %s" % (cls, names, list(fields)))
-    return Obj(cls, vals, owner=EXT, tag=tag or cls)
+    o_ = Obj(cls, vals, owner=EXT, tag=tag or cls)
+    for v_ in vals.values():
+        if isinstance(v_, dict) and getattr(v_, 'tag', None) == "%s.%s" % (cls, [k for k, x in vals.items() if x is v_][0]): v_.holder = o_
+    return o_
 
 
 def component(src, t, vp_type='antoine', uniquac=True):
